@@ -153,6 +153,64 @@ Section Ical.
         cbn [andb negb]; reflexivity.
   Qed.
 
+  (* the first year: readings at or after the first onset of the zone *)
+  Lemma first_onset (g : Z -> Z) x :
+    (forall i j, i < j -> g i < g j) -> (0 < n)%nat -> x < g (y0 + 1) ->
+    before_inc (map g (zrange n y0)) x None = if g y0 <=? x then Some (g y0) else None.
+  Proof.
+    intros Hg Hn H2. destruct (Z.leb_spec (g y0) x).
+    - apply before_inc_zrange; try assumption; lia.
+    - apply before_inc_none; assumption.
+  Qed.
+
+  Lemma ical_decision_first w f :
+    ystart y0 <= w < ystart (y0 + 1) -> (0 < n)%nat ->
+    Z.min (RSy y0) (REy y0) <= w ->
+    ical_isdst [comp_daylight; comp_standard] w f = Some (LI r ds y0 w f) /\
+    ical_isdst [comp_standard; comp_daylight] w f = Some (LI r ds y0 w f).
+  Proof.
+    intros Hw Hn Hmin.
+    pose proof (a_bound r ds Hdst Hwf) as (Ha & Ha1 & Ha2).
+    pose proof (sv_range r ds Hdst Hap) as Hsv.
+    pose proof (RS_bounds r ds Hdst Hwf Hap y0) as [B1 B2].
+    pose proof (RE_bounds r ds Hdst Hwf Hap y0) as [B3 B4].
+    pose proof (RS_bounds r ds Hdst Hwf Hap (y0 + 1)) as [C1 C2].
+    pose proof (RE_bounds r ds Hdst Hwf Hap (y0 + 1)) as [C3 C4].
+    pose proof (ystart_succ y0) as Y2. pose proof (year_len_bounds y0).
+    assert (LS : find_compdt comp_daylight w f = if RSy y0 <=? w then Some (RSy y0) else None).
+    { unfold find_compdt, comp_daylight, c_diff. cbn [c_to c_from c_onsets].
+      replace (doff - off <? 0) with false by lia. cbn [andb].
+      apply first_onset; [apply RS_incr|exact Hn|]. unfold MARGIN, DAY in *; lia. }
+    set (w' := if f then w + sv else w).
+    assert (LE : find_compdt comp_standard w f = if REy y0 <=? w' then Some (REy y0) else None).
+    { unfold find_compdt, comp_standard, c_diff. cbn [c_to c_from c_onsets].
+      replace (off - doff <? 0) with true by lia. cbn [andb].
+      replace (if f then w - (off - doff) else w) with w' by (subst w'; destruct f; lia).
+      apply first_onset; [apply RE_incr|exact Hn|]. subst w'; destruct f; unfold MARGIN, DAY in *; lia. }
+    unfold ical_isdst, find_comp_pure, find_comp_nocache.
+    cbn [scan_comps]. rewrite LS, LE.
+    unfold LI, AMB, naive_isdst.
+    destruct (order r ds Hdst Hwf Hap) as [N | S].
+    - pose proof (N y0).
+      destruct (Z.leb_spec (RS ds y0) w); destruct (Z.leb_spec (RE ds y0) w');
+        subst w'; destruct f; unfold MARGIN, DAY in *; try (exfalso; lia);
+        split; leb_lia; cbn [nth_error c_isdst comp_daylight comp_standard andb negb first_std];
+        repeat (match goal with
+                | |- context [?x <? ?y] => destruct (Z.ltb_spec x y)
+                | |- context [?x <=? ?y] => destruct (Z.leb_spec x y)
+                end; try (exfalso; lia); leb_lia);
+        cbn [andb negb]; reflexivity.
+    - pose proof (S y0).
+      destruct (Z.leb_spec (RS ds y0) w); destruct (Z.leb_spec (RE ds y0) w');
+        subst w'; destruct f; unfold MARGIN, DAY in *; try (exfalso; lia);
+        split; leb_lia; cbn [nth_error c_isdst comp_daylight comp_standard andb negb first_std];
+        repeat (match goal with
+                | |- context [?x <? ?y] => destruct (Z.ltb_spec x y)
+                | |- context [?x <=? ?y] => destruct (Z.leb_spec x y)
+                end; try (exfalso; lia); leb_lia);
+        cbn [andb negb]; reflexivity.
+  Qed.
+
   Lemma comp_at_of_isdst cs w f b :
     cs = [comp_daylight; comp_standard] \/ cs = [comp_standard; comp_daylight] ->
     ical_isdst cs w f = Some b ->
@@ -184,6 +242,24 @@ Section Ical.
     rewrite (isdst_model r ds z w f Hz). fold y. cbn [rbind].
     destruct Hz as (Hsa & Hda & Hso & Hdo & Hh & Ht). unfold dst_base. rewrite Hso, Hdo, Hsa, Hda.
     destruct (LI r ds y w f); reflexivity.
+  Qed.
+  (* ... and already in the first year, from the zone's first onset on *)
+  Theorem ical_equiv_wall_first z w f cs :
+    zone_for r ds z ->
+    cs = [comp_daylight; comp_standard] \/ cs = [comp_standard; comp_daylight] ->
+    (0 < n)%nat -> year_of_secs w = y0 -> Z.min (RSy y0) (REy y0) <= w ->
+    ic_observe_wall cs w f = observe_wall z w f.
+  Proof.
+    intros Hz Hcs Hn Hy Hmin.
+    pose proof (year_of_secs_spec w) as Hw. rewrite Hy in Hw.
+    destruct (ical_decision_first w f Hw Hn Hmin) as [D1 D2].
+    assert (D : ical_isdst cs w f = Some (LI r ds y0 w f)) by (destruct Hcs as [-> | ->]; assumption).
+    pose proof (comp_at_of_isdst cs w f _ Hcs D) as C.
+    unfold ic_observe_wall, ic_utcoffset, ic_dst, ic_tzname. rewrite C. cbn [rbind].
+    unfold observe_wall, utcoffset, dst, tzname.
+    rewrite (isdst_model r ds z w f Hz). rewrite Hy. cbn [rbind].
+    destruct Hz as (Hsa & Hda & Hso & Hdo & Hh & Ht). unfold dst_base. rewrite Hso, Hdo, Hsa, Hda.
+    destruct (LI r ds y0 w f); reflexivity.
   Qed.
 End Ical.
 
